@@ -89,7 +89,8 @@ func readBody(r io.Reader, st RStep) (data []byte, complete bool, err error) {
 		data = append(data, buf[:k]...)
 		if e == io.EOF {
 			for i := 0; i < st.ExtraEOF; i++ {
-				k2, e2 := r.Read(buf)
+				var xb [8]byte
+				k2, e2 := r.Read(xb[:])
 				// The io.Reader contract only promises no more data; the
 				// error after EOF is not specified (a compressed message
 				// reader reports "closed pipe").
